@@ -351,6 +351,7 @@ pub open spec fn trv_persisted(t: Transition) -> TransV {
 }
 
 // serves: C05
+#[verifier::rlimit(400)]
 pub proof fn lemma_rt_transition(t: Transition, tail: Seq<u8>)
     requires
         transition_ok(t),
@@ -359,8 +360,6 @@ pub proof fn lemma_rt_transition(t: Transition, tail: Seq<u8>)
     ensures
         d_transition(enc_transition(t) + tail) == Dec::Ok(trv_persisted(t), tail),
 {
-    reveal(enc_transition);
-    broadcast use {seq_axioms::lemma_add_assoc, seq_axioms::lemma_add_empty};
     let fl = transition_flags(t);
     let o = transition_type_ordinal(t.transition_type);
     let w: u8 = if t.wildcard { 2u8 } else { 0u8 };
@@ -379,7 +378,10 @@ pub proof fn lemma_rt_transition(t: Transition, tail: Seq<u8>)
     let r3 = enc_list(t.target@, f_id()) + r4;
     let r2 = enc_uint(t.source as u64) + r3;
     let r1 = enc_uint(t.doc_id as u64) + r2;
-    assert(enc_transition(t) + tail == enc_uint(t.id as u64) + r1);
+    assert(enc_transition(t) + tail == enc_uint(t.id as u64) + r1) by {
+        reveal(enc_transition);
+        broadcast use {seq_axioms::lemma_add_assoc, seq_axioms::lemma_add_empty};
+    }
     let ev = strs_v(t.events@);
     let cv = if data_is_empty(t.cond) { data_null() } else { t.cond };
     lemma_rt_d_id(t.id, r1);
@@ -415,6 +417,7 @@ pub open spec fn ec_sizes_ok(v: EcV) -> bool {
 
 // serves: C05
 /// every executable-content element: reading what write_executable_content wrote yields the same element
+#[verifier::rlimit(400)]
 pub proof fn lemma_rt_ec(v: EcV, tail: Seq<u8>)
     requires
         ec_ok(v),
@@ -548,6 +551,7 @@ pub proof fn lemma_state_flag_bits(s: State)
 }
 
 // serves: C05
+#[verifier::rlimit(400)]
 pub proof fn lemma_rt_invoke_list(s: Seq<Invoke>, tail: Seq<u8>)
     requires
         invokes_ok(s),
@@ -604,6 +608,7 @@ pub proof fn lemma_state_layout(s: State, order: Seq<(String, DataArc)>, tail: S
 
 // serves: C05
 /// the state record: the decoder specification applied to what write_state emits yields every persisted field back
+#[verifier::rlimit(400)]
 pub proof fn lemma_rt_state(s: State, order: Seq<(String, DataArc)>, tail: Seq<u8>)
     requires
         state_ok(s),
